@@ -115,11 +115,7 @@ func ParseFloat(b []byte) (float64, int) {
 const log2 = 0.3010299956639812
 
 func float64exp(f float64) int {
-	exp2 := 0
-	if f != 0.0 {
-		x := math.Float64bits(f)
-		exp2 = int(x>>(64-11-1))&0x7FF - 1023 + 1
-	}
+	_, exp2 := math.Frexp(f) // also normalizes subnormal numbers, whose exponent bits are zero
 
 	exp10 := float64(exp2) * log2
 	if exp10 < 0 {
